@@ -4,6 +4,7 @@ import Heathcliff.Proofs.C20D
 import Heathcliff.Proofs.C20F
 import Heathcliff.Proofs.C20G
 import Heathcliff.Proofs.C20H
+import Heathcliff.Proofs.C20I
 
 /- Property C20: homomorphic matrix products and convolutions equal plaintext ones, all shapes.
    Property theorems only (proofs are the helper lemmas of Heathcliff/Proofs/C20*.lean). -/
@@ -128,6 +129,25 @@ theorem conv2d_sum_channels {R : Type} [CommRing R] (f : Nat → R) (ci cib : Na
     ∑ g ∈ range (ceilDiv ci cib), ∑ ic ∈ range (min ci (g * cib + cib) - g * cib), f (g * cib + ic) = ∑ ic ∈ range ci, f ic :=
   HC.c20_sum_blocks f cib ci hcib
 
+/-- **2-D convolution, whole tensor** (any commutative ring, ALL shapes with the kernel inside the image, ALL block tuples with positive
+    blocks, kernel inside the tile and `b·ci·co·h·w ≤ n` — the bundle `c20_CvOK`): encode the image tiles (`cvEncodeInputs`: batch
+    blocks × overlapping tiles × input-channel blocks, flattened as in the code) and the weights (`cvEncodeWeights`), multiply and
+    accumulate over the input-channel blocks in S[X]/(X^n + 1) (`c20_cvEval`), decode (`cvDecodeOutputs`): the result is the VALID
+    cross-correlation `y[b][c][i][j] = Σ_ic Σ_ki Σ_kj x[b][ic][i+ki][j+kj]·w[c][ic][ki][kj]` (`c20_xcorr`), row major.  Includes the
+    tile / flatten index arithmetic (group index ↔ (batch block, tile row, tile column)) and the coverage of every output entry. -/
+theorem conv2d_whole : type_of% @HC.c20_conv2d_whole := @HC.c20_conv2d_whole
+
+/-- ... for the block tuple the model's search returns: every admissible shape (positive dimensions ≤ 2^15, kernel inside the image,
+    `kh·kw ≤ N`), every objective -/
+theorem conv2d_search : type_of% @HC.c20_conv2d_search := @HC.c20_conv2d_search
+
+/-- the index map of `decrypt_outputs_*` (conv2d) over ALL groups and output-channel blocks, for any family of decoded polynomials -/
+theorem conv2d_decode_whole : type_of% @HC.c20_cvDecode_spec := @HC.c20_cvDecode_spec
+
+/-- `encode_inputs_*` / `encode_weights_*` (conv2d) over ALL blocks are total; the input groups are the flattened grid -/
+theorem conv2d_encode_inputs_whole : type_of% @HC.c20_cvEncodeInputs_ok := @HC.c20_cvEncodeInputs_ok
+theorem conv2d_encode_weights_whole : type_of% @HC.c20_cvEncodeWeights_ok := @HC.c20_cvEncodeWeights_ok
+
 /-- **output re-encoding is the inverse of output decoding** (block level, both for any coefficient type): `encode_outputs_*` writes
     entry (db, dj) of a block exactly at the position `decrypt_outputs_*` reads for it, distinct entries go to distinct positions
     inside the polynomial, and every other coefficient is zero -/
@@ -215,6 +235,12 @@ example (x w : Nat → ℤ) := cheetah_matmul_whole ⟨3, 4, 2, 3, 1, 2, 8, fals
   (by decide) rfl
 example (x w : Nat → ℤ) := cheetah_matmul_search 3 4 2 8 .cipherPlain (by decide) (by decide) (by decide) (by decide)
   (by decide) x w
+/-- the hypotheses of `conv2d_whole` are satisfiable (the witness shape of the pinned defect with its searched blocks (1,16,4,1,1):
+    three overlapping tiles in height) -/
+example (x w : Nat → ℤ) := conv2d_whole ⟨⟨1, 1, 1, 40, 4, 3, 3⟩, 1, 16, 4, 1, 1, 64⟩ x w
+  ⟨by decide, by decide, by decide, by decide, by decide, by decide, by decide, by decide⟩ (by decide) (by decide)
+example (x w : Nat → ℤ) := conv2d_search ⟨2, 3, 2, 6, 5, 3, 2⟩ 64 .cipherPlain (by decide) (by decide) (by decide) (by decide)
+  (by decide) (by decide) (by decide) (by decide) (by decide) x w
 /-- the hypotheses of `conv2d_coeff` are satisfiable: the witness shape of the pinned defect (image 40×4, kernel 3×3, N = 64,
     blocks (1,16,4,1,1)), first tile, last output row / column of the tile -/
 example (x w : Nat → ℤ) := conv2d_coeff ⟨⟨1, 1, 1, 40, 4, 3, 3⟩, 1, 16, 4, 1, 1, 64⟩ x w (by decide) (by decide) (by decide) (by decide)
